@@ -29,7 +29,7 @@ ASSUMPTIONS = [
     "conversion of a value is observed through the property's own element called alone (differential inside the library, as the statement is phrased)",
     "'no value' = the NotPassed marker for element instances (Element.__call__ has no parameter default) and Cls() for classes",
 ]
-BUDGET = {"quick": 170, "thorough": 2400}
+BUDGET = {"quick": 400, "thorough": 3500}
 
 observe.register_formats()
 CFG = R.RCfg(depth=2, kw_max=2, nothing=False)
